@@ -114,9 +114,9 @@ theorem rel_slot_tweak (h : Rel seen y m) (i : Slot) (d' : DSlot) (md' : MSlot)
     · intro j; simp only [msetSlot_slots]; split
       · rename_i e; rw [e, hmu]
       · rfl
-    · intro j; simp only [msetSlot_slots]; split
-      · rename_i e; rw [e, mo]
-      · rfl
+    · intro j hj; simp only [msetSlot_slots]; split
+      · rename_i e; rw [mo, ← e]; exact hj
+      · exact hj
 
 theorem step_ackdone (h : Rel seen y m) (i : Slot) (id : Nat) (hint : Option Who) :
     StepOk seen y m (.ackdone i id) hint := by
